@@ -138,7 +138,7 @@ def licenseref_language(ctx):
                 ctx.harness_error(f"LicenseRef counterexample does not replay: {w!r}")
                 verdict = "inconclusive"
                 continue
-            key = "licenseref-trailing-LF" if (dom_name == "with LF" and w.endswith("\n") and "\n" not in w[:-1]) else f"licenseref:{direction}:{w!r}"
+            key = f"licenseref:{direction}:{w!r}"
             st = ctx.violation(key, f"_LICENSEREF_PATTERN {'rejects' if direction == 'under' else 'accepts'} {w!r}", {"licenseref": w, "expected": direction == "under"})
             verdict = st if st == "violated" else "known"
             detail = f"{direction}: {w!r}"
@@ -147,7 +147,7 @@ def licenseref_language(ctx):
 
 def run(ctx):
     tier = ctx.tier
-    carve = sorted(k for k in ctx.known if not k.startswith("licenseref-trailing"))
+    carve = sorted(ctx.known)
     conds = []
     tmo = 400 if tier == "quick" else 1500
     allforms = list(range(7))
